@@ -886,6 +886,840 @@ class TableRun(Stream):
     def stats(self, pl, mo, io, acc):
         acc[pl["fn"]] = acc.get(pl["fn"], 0) + 1
 
+# ---------------------------------------------------------------------------------------------
+# `Rational` arithmetic and `primitives.quotient` on Python ints
+#
+# Two readings of the same source (lean/PV/Properties/C19Rational.lean):
+#   py3  what runs today: the constructor stores floats, every arithmetic method raises
+#        AttributeError (FieldTraits has no gcd / lcm / get_unit) — stream `rational-py3` on the
+#        REAL code, in this process
+#   py2  `/` on two ints is floor division (what the file was written for): stream `rational-py2`
+#        on the tree under test with `/` rewritten to `//` in rational.py and traits.py
+#        (harness/c19_py2.py), in a worker process
+# ---------------------------------------------------------------------------------------------
+
+RAT_METHOD = {"add": "__add__", "radd": "__radd__", "sub": "__sub__", "rsub": "__rsub__",
+              "mul": "__mul__", "rmul": "__rmul__", "div": "__div__", "rdiv": "__rdiv__",
+              "pow": "__pow__", "neg": "__neg__", "recip": "reciprocal"}
+RAT_BIN = ["add", "radd", "sub", "rsub", "mul", "rmul", "div", "rdiv"]
+RAT_UN = ["neg", "recip"]
+
+
+def _rat_other_sx(o):
+    if o is None:
+        return "none"
+    if o[0] == "i":
+        return f"(i {o[1]})"
+    return f"(r {o[1]} {o[2]})"
+
+
+def _rat_reply(r):
+    """worker reply -> the driver's format"""
+    if r[0] == "i":
+        return f"(i {r[1]})"
+    if r[0] == "r":
+        return f"(r {r[1]} {r[2]})"
+    if r[0] == "raise":
+        return f"(raise {r[1]})"
+    return "(" + " ".join(str(x) for x in r) + ")"
+
+
+def _rat_value(r):
+    """worker reply -> Fraction | None (raised) | 'bad'"""
+    if r[0] == "i":
+        return Fraction(r[1])
+    if r[0] == "r":
+        return Fraction(r[1], r[2]) if r[2] != 0 else "bad"
+    if r[0] == "raise":
+        return None
+    return "bad"
+
+
+def _rat_want(op, a, b):
+    """the operation on the VALUES (Fractions); 'zero' when it divides by zero"""
+    if op in ("add", "radd"):
+        return a + b
+    if op == "sub":
+        return a - b
+    if op == "rsub":
+        return b - a
+    if op in ("mul", "rmul"):
+        return a * b
+    if op == "div":
+        return a / b if b != 0 else "zero"
+    if op == "rdiv":
+        return b / a if a != 0 else "zero"
+    if op == "neg":
+        return -a
+    if op == "recip":
+        return 1 / a if a != 0 else "zero"
+    raise KeyError(op)
+
+
+def _rat_cases(rng, tier, zero_den):
+    """(op, (n1, d1), other) — exhaustive small, then structured random ones"""
+    big = tier != "quick"
+    small = range(-4, 5) if big else range(-3, 4)
+    dens = [d for d in small if zero_den or d != 0]
+    k = 0
+    for n1 in small:
+        for d1 in dens:
+            for op in RAT_UN:
+                yield op, (n1, d1), None
+            for e in range(0, 4):
+                yield "pow", (n1, d1), ["i", e]
+            for n2 in small:
+                yield RAT_BIN[k % 8], (n1, d1), ["i", n2]
+                k += 1
+                for d2 in dens:
+                    yield RAT_BIN[k % 8], (n1, d1), ["r", n2, d2]
+                    k += 1
+    def num(lim):
+        return rng.choice([0, 1, -1, rng.randint(-12, 12), rng.randint(-lim, lim)])
+
+    def den(lim):
+        d = 0
+        while d == 0:
+            d = rng.choice([1, -1, 2, rng.randint(-12, 12), rng.randint(-lim, lim)])
+        return d
+    for i in range(6000 if big else 700):
+        lim = [30, 10**4, 10**9, 10**30][i % 4]
+        op = (RAT_BIN + RAT_UN + ["pow"])[i % 11]
+        n1, d1 = num(lim), den(lim)
+        if i % 5 == 0:                       # operands with a common factor (not in lowest terms)
+            g = rng.randint(2, 9)
+            n1, d1 = n1 * g, d1 * g
+        if op in RAT_UN:
+            yield op, (n1, d1), None
+        elif op == "pow":
+            yield op, (n1, d1), ["i", rng.randint(0, 5)]
+        elif i % 3 == 0:
+            yield op, (n1, d1), ["i", num(lim)]
+        else:
+            n2, d2 = num(lim), den(lim)
+            if i % 7 == 0:                   # equal / opposite denominators, cancelling sums
+                d2 = rng.choice([d1, -d1])
+                n2 = rng.choice([n2, -n1, d2 - n1])
+            yield op, (n1, d1), ["r", n2, d2]
+
+
+class RationalPy2(Stream):
+    """`Rational.__add__ … __pow__`, `__init__`, `quotient` under the Python-2 reading of `/`: the
+    hand-written Lean model (`ratAdd`, `ratMul`, …) vs the tree under test with `/` rewritten to
+    `//` in rational.py and traits.py (worker process); oracle: `fractions.Fraction` on the values
+    (+, −, ×, ÷, negation, reciprocal; `quotient(a, b)` and `Rational(a, b)` stand for a/b)"""
+    name = "rational-py2"
+
+    def __init__(self):
+        self._cache = {}
+
+    def cases(self, rng, tier):
+        for op, (n1, d1), other in _rat_cases(rng, tier, zero_den=True):
+            yield {"op": op, "self": [n1, d1], "other": other}
+        span = range(-6, 7)
+        for a in span:
+            for b in span:
+                yield {"op": "init", "self": [a, b], "other": None}
+                yield {"op": "quotient", "self": [a, b], "other": None}
+        for _ in range(60 if tier == "quick" else 600):
+            a, b = rng.randint(-10**30, 10**30), rng.randint(-10**30, 10**30)
+            yield {"op": rng.choice(["init", "quotient"]), "self": [a, b], "other": None}
+        yield {"op": "pow", "self": [2, 3], "other": ["i", -1]}     # float power: model abstains
+
+    def request(self, pl):
+        n, d = pl["self"]
+        return f"(c19-rat py2 {pl['op']} ({n} {d}) {_rat_other_sx(pl['other'])})"
+
+    def _ask(self, pl):
+        from ..c19_py2 import worker
+        key = json.dumps(pl, sort_keys=True)
+        if key not in self._cache:
+            n, d = pl["self"]
+            op, o = pl["op"], pl["other"]
+            if op in ("init", "quotient"):
+                fn = "Rational.__init__" if op == "init" else "primitives.quotient"
+                req = {"fn": fn, "args": [["i", n], ["i", d]]}
+            else:
+                other = None if o is None else (o if o[0] == "i" else ["raw", o[1], o[2]])
+                req = {"fn": "Rational." + RAT_METHOD[op], "self": ["raw", n, d], "other": other}
+            self._cache[key] = worker().ask(req)
+        return self._cache[key]
+
+    def run_impl(self, pl):
+        return _rat_reply(self._ask(pl))
+
+    def oracle(self, pl):
+        op, (n1, d1), o = pl["op"], pl["self"], pl["other"]
+        r = self._ask(pl)
+        if r[0] == "harness-error":
+            return Failure("rational-harness-error", str(r), pl)
+        got = _rat_value(r)
+        if op in ("init", "quotient"):
+            # "the exact quotient built from two integers evaluates to their quotient"
+            if d1 == 0:
+                return None if got is None else Failure(
+                    f"rational-{op}-zero-denominator-accepted", f"{op}({n1}, 0) returned {r}", pl)
+            if got is None or got == "bad":
+                return Failure(f"rational-{op}-raises", f"{op}({n1}, {d1}) gave {r}", pl)
+            if got != Fraction(n1, d1):
+                return Failure(f"rational-{op}-value", f"{op}({n1}, {d1}) stands for {got}", pl)
+            return None
+        if op == "pow":
+            return None           # `__pow__` exchanges numerator and denominator: mirrored, reported
+        d2 = 1 if o is None or o[0] == "i" else o[2]
+        if d1 == 0 or d2 == 0:
+            return None           # the statement is about non-zero denominators
+        a = Fraction(n1, d1)
+        b = None if o is None else (Fraction(o[1]) if o[0] == "i" else Fraction(o[1], o[2]))
+        want = _rat_want(op, a, b)
+        if want == "zero":
+            return None if got is None else Failure(
+                f"rational-{op}-by-zero-accepted", f"{op} of {a} and {b} returned {r}", pl)
+        if got is None:
+            return Failure(f"rational-{op}-raises", f"{op} of {a} and {b} raised {r[1]}", pl)
+        if got == "bad":
+            return Failure(f"rational-{op}-not-a-number", f"{op} of {a} and {b} returned {r}", pl)
+        if got != want:
+            return Failure(f"rational-{op}-value", f"{op} of {a} and {b}: {got}, expected {want}", pl)
+        return None
+
+    def shrink(self, pl):
+        n, d = pl["self"]
+        o = pl["other"]
+        for v in (0, 1, -1, 2):
+            if abs(v) < abs(n):
+                yield dict(pl, self=[v, d])
+            if v and abs(v) < abs(d):
+                yield dict(pl, self=[n, v])
+        if o is not None:
+            for i in range(1, len(o)):
+                for v in (0, 1, -1, 2):
+                    if abs(v) < abs(o[i]) and not (v == 0 and i == 2):
+                        yield dict(pl, other=o[:i] + [v] + o[i + 1:])
+
+    def nontrivial_key(self, pl, model, impl):
+        return json.dumps(pl, sort_keys=True)
+
+    def stats(self, pl, mo, io, acc):
+        acc[pl["op"]] = acc.get(pl["op"], 0) + 1
+        if io and io.startswith("(raise"):
+            acc["raises"] = acc.get("raises", 0) + 1
+
+
+def _real_rational(n, d):
+    from pymbolic.rational import Rational
+    return Rational(int(n), int(d))
+
+
+def _rel_close(got, want, bits=50):
+    """|got - want| <= 2**-bits * |want|, in exact rational arithmetic (`got` a float or int)"""
+    g = Fraction(got)
+    return abs(g - want) * (1 << bits) <= abs(want)
+
+
+class RationalPy3(Stream):
+    """the same methods as Python 3 runs them, on the REAL code: `Rational(n, d)` built by the
+    constructor, operand a plain int or another `Rational`; model: `ratPy3` (every method raises
+    AttributeError — proved for the regenerated bodies).  Oracle (partial correctness): whenever
+    a call RETURNS, the returned object evaluates to the value `fractions.Fraction` computes; the
+    operators `/` (Expression's `__truediv__`) are oracle-only."""
+    name = "rational-py3"
+
+    def cases(self, rng, tier):
+        for op, (n1, d1), other in _rat_cases(rng, "quick", zero_den=False):
+            if abs(n1) > 10**9 or abs(d1) > 10**9:
+                continue
+            if other is not None and any(abs(x) > 10**9 for x in other[1:]):
+                continue
+            yield {"op": op, "self": [n1, d1], "other": other}
+        for _ in range(40):
+            yield {"op": "pow", "self": [rng.choice([0, 0, 3, -2]), rng.randint(1, 5)],
+                   "other": ["i", rng.randint(-4, 4)]}
+        for _ in range(200 if tier == "quick" else 2000):
+            n1, d1 = rng.randint(-20, 20), rng.choice([1, 2, 3, -4, 7])
+            o = rng.choice([["i", rng.randint(-5, 5)], ["r", rng.randint(-9, 9), rng.choice([1, 2, -3, 5])]])
+            yield {"op": rng.choice(["truediv", "rtruediv"]), "self": [n1, d1], "other": o}
+
+    def request(self, pl):
+        n, d = pl["self"]
+        return f"(c19-rat py3 {pl['op']} ({n} {d}) {_rat_other_sx(pl['other'])})"
+
+    def _call(self, pl):
+        from pymbolic.rational import Rational
+        n, d = pl["self"]
+        op, o = pl["op"], pl["other"]
+        a = _real_rational(n, d)
+        b = None if o is None else (int(o[1]) if o[0] == "i" else _real_rational(o[1], o[2]))
+        if op == "truediv":
+            return a / b
+        if op == "rtruediv":
+            return b / a
+        f = Rational.__dict__[RAT_METHOD[op]]
+        return f(a) if b is None else f(a, b)
+
+    def _run(self, pl):
+        try:
+            return ("ok", self._call(pl))
+        except (AttributeError, ArithmeticError, RuntimeError, TypeError) as ex:
+            return ("raise", type(ex).__name__)
+
+    def run_impl(self, pl):
+        kind, v = self._run(pl)
+        if kind == "raise":
+            return f"(raise {v})"
+        if isinstance(v, int) and not isinstance(v, bool):
+            return f"(i {v})"
+        return f"(returned {type(v).__name__})"
+
+    def agree(self, model, impl, pl):
+        if model == "(noclaim)":
+            return "trivial"
+        return "ok" if model == impl else "diff"
+
+    def oracle(self, pl):
+        from pymbolic import evaluate
+        kind, v = self._run(pl)
+        if kind == "raise":
+            return None          # the methods do not work under Python 3: reported, not demanded
+        op, (n1, d1), o = pl["op"], pl["self"], pl["other"]
+        a = Fraction(n1, d1)
+        b = None if o is None else (Fraction(o[1]) if o[0] == "i" else Fraction(o[1], o[2]))
+        if op == "pow":
+            want = a ** o[1] if (a != 0 or o[1] >= 0) else "zero"
+        elif op == "truediv":
+            want = a / b if b != 0 else "zero"
+        elif op == "rtruediv":
+            want = b / a if a != 0 else "zero"
+        else:
+            want = _rat_want(op, a, b)
+        try:
+            got = v if isinstance(v, (int, float)) else evaluate(v)
+        except ZeroDivisionError:
+            return None if want == "zero" else Failure(
+                f"rational3-{op}-evaluate-raises", f"{op} on {a}, {b}: ZeroDivisionError", pl)
+        except Exception as ex:     # noqa: BLE001
+            return Failure(f"rational3-{op}-evaluate-raises", f"{op} on {a}, {b}: {ex!r}", pl)
+        if want == "zero":
+            if op in ("truediv", "rtruediv"):
+                return None      # `0 / x -> 0` is a fold of Expression.__rtruediv__ (C03), not ours
+            return Failure(f"rational3-{op}-by-zero-accepted", f"{op} on {a}, {b} gave {got!r}", pl)
+        if isinstance(got, bool) or not isinstance(got, (int, float)):
+            return Failure(f"rational3-{op}-not-a-number", f"{op} on {a}, {b} gave {got!r}", pl)
+        if want == 0:
+            ok = got == 0
+        else:
+            ok = _rel_close(got, want, 48)
+        if not ok:
+            return Failure(f"rational3-{op}-value", f"{op} on {a}, {b}: {got!r}, expected {want}", pl)
+        return None
+
+    def nontrivial_key(self, pl, model, impl):
+        return json.dumps(pl, sort_keys=True)
+
+    def stats(self, pl, mo, io, acc):
+        acc[pl["op"]] = acc.get(pl["op"], 0) + 1
+        if io and io.startswith("(raise"):
+            k = "raises_" + io[7:-1]
+            acc[k] = acc.get(k, 0) + 1
+
+
+def _v_ratF(n, d):
+    """the object `Rational(n, d)` holds under Python 3, as the REAL constructor leaves it"""
+    r = _real_rational(n, d)
+    fn, fd = Fraction(r.Numerator), Fraction(r.Denominator)
+    return (f"(o Rational (Numerator (f {fn.numerator} {fn.denominator})) "
+            f"(Denominator (f {fd.numerator} {fd.denominator})))")
+
+
+def _v_ratI(n, d):
+    return f"(o Rational (Numerator (i {n})) (Denominator (i {d})))"
+
+
+class QuotientInts(Stream):
+    """"the exact quotient node built from two integers evaluates to their quotient":
+    `primitives.quotient(a, b)` and the node `Quotient(a, b)` for ALL small integer pairs and random
+    big ones.  Model: the table interpreter on the regenerated `primitives.quotient` /
+    `EvaluationMapper.map_quotient` (floats as the exact fractions they were computed as; big
+    pairs are oracle-only: a float no longer holds them exactly).  Oracle: the evaluated value is
+    a / b to within 2 ulp, exactly a / b whenever that is a float, an int for b = 1; b = 0 raises."""
+    name = "quotient-int"
+
+    def cases(self, rng, tier):
+        span = range(-12, 13) if tier == "quick" else range(-40, 41)
+        for a in span:
+            for b in span:
+                for what in ("build", "evaluate", "node"):
+                    yield {"what": what, "a": a, "b": b}
+        for i in range(150 if tier == "quick" else 3000):
+            lim = [10**6, 2**53, 10**40, 10**200][i % 4]
+            a = rng.choice([0, 1, -1, rng.randint(-lim, lim)])
+            b = rng.choice([1, -1, 2, rng.randint(-lim, lim), rng.randint(-lim, lim)])
+            if i % 9 == 0 and b:
+                a = b * rng.randint(-1000, 1000)            # an integral quotient
+            yield {"what": ["evaluate", "node", "build"][i % 3], "a": a, "b": b,
+                   "big": max(abs(a), abs(b)) >= 2**53}
+
+    def request(self, pl):
+        a, b, w = pl["a"], pl["b"], pl["what"]
+        pre = f"(c19-table-run 0 0 0 {TABLE_FUEL}"
+        if w == "build" or pl.get("big"):
+            return f"{pre} primitives.quotient (i {a}) (i {b}))"
+        if w == "node":
+            return (f"{pre} EvaluationMapper.map_quotient (o EvaluationMapper) "
+                    f"(o Quotient (numerator (i {a})) (denominator (i {b}))))")
+        if b in (0, 1):
+            return f"{pre} primitives.quotient (i {a}) (i {b}))"
+        return f"{pre} EvaluationMapper.map_quotient (o EvaluationMapper) {_v_ratF(a, b)})"
+
+    def _real(self, pl):
+        from pymbolic.mapper.evaluator import EvaluationMapper
+        from pymbolic.primitives import Quotient, quotient
+        a, b, w = pl["a"], pl["b"], pl["what"]
+        if w == "node":
+            return EvaluationMapper({})(Quotient(a, b))
+        q = quotient(a, b)
+        if w == "build" or b in (0, 1):
+            return q
+        return EvaluationMapper({})(q)
+
+    def run_impl(self, pl):
+        try:
+            r = self._real(pl)
+        except (ArithmeticError, RuntimeError, AttributeError, TypeError) as ex:
+            return repr(("raise", type(ex).__name__))
+        return repr(_canon_real(r))
+
+    def agree(self, model, impl, pl):
+        from ..sexp import loads
+        if pl.get("big"):
+            return "trivial"
+        try:
+            got = _canon_model(loads(model))
+        except Exception:
+            return "diff"
+        if repr(got) == impl:
+            return "ok"
+        # a float quotient is the exact fraction only up to rounding
+        try:
+            real = eval(impl, {"Fraction": Fraction})      # noqa: S307  (our own repr)
+        except Exception:
+            return "diff"
+        if (got[0] == "num" and real[0] == "num" and got[1] != 0
+                and abs(real[1] - got[1]) * (1 << 52) <= abs(got[1])):
+            return "ok"
+        return "diff"
+
+    def oracle(self, pl):
+        from pymbolic import evaluate
+        from pymbolic.primitives import Quotient, quotient
+        a, b, w = pl["a"], pl["b"], pl["what"]
+        name = "Quotient" if w == "node" else "quotient"
+        try:
+            obj = Quotient(a, b) if w == "node" else quotient(a, b)
+            got = evaluate(obj)
+        except Exception as ex:     # noqa: BLE001
+            if b == 0:
+                return None
+            return Failure(f"{name}-int-raises", f"{name}({a}, {b}): {ex!r}", pl)
+        if b == 0:
+            return Failure(f"{name}-int-zero-denominator-accepted",
+                           f"{name}({a}, 0) evaluates to {got!r}", pl)
+        want = Fraction(a, b)
+        if isinstance(got, bool) or not isinstance(got, (int, float)):
+            return Failure(f"{name}-int-not-a-number", f"{name}({a}, {b}) evaluates to {got!r}", pl)
+        if got != got or got in (float("inf"), float("-inf")):
+            return Failure(f"{name}-int-value", f"{name}({a}, {b}) evaluates to {got!r}", pl)
+        if w != "node" and b == 1 and not (isinstance(got, int) and got == a):
+            return Failure("quotient-int-by-one", f"quotient({a}, 1) evaluates to {got!r}", pl)
+        if want == 0:
+            ok = got == 0
+        else:
+            ok = _rel_close(got, want, 51)
+            try:
+                exact = Fraction(float(want)) == want
+            except OverflowError:
+                exact = False
+            if ok and exact and max(abs(a), abs(b)) <= 2**53:
+                ok = Fraction(got) == want
+        if not ok:
+            return Failure(f"{name}-int-value",
+                           f"{name}({a}, {b}) evaluates to {got!r}, their quotient is {want}", pl)
+        return None
+
+    def shrink(self, pl):
+        for k in ("a", "b"):
+            for v in (0, 1, -1, 2, 3):
+                if abs(v) < abs(pl[k]) and not (k == "b" and v == 0):
+                    yield dict(pl, **{k: v}, big=False)
+
+    def nontrivial_key(self, pl, model, impl):
+        return f"{pl['what']} {pl['a']} {pl['b']}"
+
+    def stats(self, pl, mo, io, acc):
+        acc[pl["what"]] = acc.get(pl["what"], 0) + 1
+        if pl.get("big"):
+            acc["big"] = acc.get("big", 0) + 1
+
+
+class TableRunRational(Stream):
+    """T-gen for the `Rational` rows: the compiled table interpreter on the REGENERATED bodies —
+    as they are (`c19-table-run`, Python 3: the real code in this process, float fields) and with
+    every `/` read as `//` (`c19-table-run-py2`: the Python-2-reading copy of the tree under test
+    in the worker) — vs the code.  A disagreement means extract/algorithm.py mistranslated a body
+    (several `except` clauses, `Class.method(self, …)` calls, constructors of classes outside the
+    table are new shapes) or the table language gives a statement a wrong meaning."""
+    name = "table-run-rational"
+
+    def __init__(self):
+        self._cache = {}
+
+    def cases(self, rng, tier):
+        big = tier != "quick"
+        k = 0
+        span = range(-3, 4)
+        for n1 in span:
+            for d1 in span:
+                for op in RAT_UN:
+                    yield {"reading": "py2", "op": op, "self": [n1, d1], "other": None}
+                    if d1:
+                        yield {"reading": "py3", "op": op, "self": [n1, d1], "other": None}
+                yield {"reading": "py2", "op": "pow", "self": [n1, d1], "other": ["i", k % 4]}
+                if d1:
+                    yield {"reading": "py3", "op": "pow", "self": [n1, d1], "other": ["i", k % 7 - 3]}
+                for n2 in span:
+                    others = [["i", n2]] + [["r", n2, d2] for d2 in (span if big else (-2, 0, 1, 3))]
+                    for o in others:
+                        op = RAT_BIN[k % 8]
+                        k += 1
+                        yield {"reading": "py2", "op": op, "self": [n1, d1], "other": o}
+                        if d1 and (o[0] == "i" or o[2]):
+                            yield {"reading": "py3", "op": op, "self": [n1, d1], "other": o}
+        for _ in range(2000 if big else 250):
+            n1, d1 = rng.randint(-60, 60), rng.randint(-60, 60)
+            o = rng.choice([["i", rng.randint(-60, 60)],
+                            ["r", rng.randint(-60, 60), rng.randint(-60, 60)]])
+            yield {"reading": "py2", "op": rng.choice(RAT_BIN), "self": [n1, d1], "other": o}
+        for a in range(-4, 5):
+            for b in range(-4, 5):
+                yield {"reading": "py2", "op": "init", "self": [a, b], "other": None}
+                yield {"reading": "py2", "op": "quotient", "self": [a, b], "other": None}
+                if a and b:
+                    yield {"reading": "py2", "op": "quotient-rat", "self": [a, b],
+                           "other": ["r", b, a + b]}
+
+    def request(self, pl):
+        (n, d), op, o = pl["self"], pl["op"], pl["other"]
+        py2 = pl["reading"] == "py2"
+        pre = f"({'c19-table-run-py2' if py2 else 'c19-table-run'} 0 0 0 {TABLE_FUEL}"
+        obj = _v_ratI if py2 else _v_ratF
+        if op == "init":
+            return f"{pre} Rational.__init__ (o Rational) (i {n}) (i {d}))"
+        if op == "quotient":
+            return f"{pre} primitives.quotient (i {n}) (i {d}))"
+        if op == "quotient-rat":
+            return f"{pre} primitives.quotient {obj(n, d)} {obj(o[1], o[2])})"
+        other = "" if o is None else (f" (i {o[1]})" if o[0] == "i" else " " + obj(o[1], o[2]))
+        return f"{pre} Rational.{RAT_METHOD[op]} {obj(n, d)}{other})"
+
+    def _py2(self, pl):
+        from ..c19_py2 import worker
+        key = json.dumps(pl, sort_keys=True)
+        if key not in self._cache:
+            (n, d), op, o = pl["self"], pl["op"], pl["other"]
+            if op in ("init", "quotient"):
+                fn = "Rational.__init__" if op == "init" else "primitives.quotient"
+                req = {"fn": fn, "args": [["i", n], ["i", d]]}
+            elif op == "quotient-rat":
+                req = {"fn": "primitives.quotient", "args": [["raw", n, d], ["raw", o[1], o[2]]]}
+            else:
+                other = None if o is None else (o if o[0] == "i" else ["raw", o[1], o[2]])
+                req = {"fn": "Rational." + RAT_METHOD[op], "self": ["raw", n, d], "other": other}
+            self._cache[key] = worker().ask(req)
+        return self._cache[key]
+
+    def run_impl(self, pl):
+        if pl["reading"] == "py2":
+            r = self._py2(pl)
+            if r[0] == "i":
+                return repr(("num", Fraction(r[1])))
+            if r[0] == "r":
+                return repr(("obj", "Rational", {"Numerator": ("num", Fraction(r[1])),
+                                                 "Denominator": ("num", Fraction(r[2]))}))
+            if r[0] == "raise":
+                return repr(("raise", r[1]))
+            return repr(("other", str(r)))
+        from pymbolic.rational import Rational
+        (n, d), op, o = pl["self"], pl["op"], pl["other"]
+        try:
+            a = _real_rational(n, d)
+            b = None if o is None else (int(o[1]) if o[0] == "i" else _real_rational(o[1], o[2]))
+            f = Rational.__dict__[RAT_METHOD[op]]
+            r = f(a) if b is None else f(a, b)
+        except (AttributeError, ArithmeticError, RuntimeError, TypeError) as ex:
+            return repr(("raise", type(ex).__name__))
+        return repr(_canon_real(r))
+
+    def agree(self, model, impl, pl):
+        from ..sexp import loads
+        try:
+            got = repr(_canon_model(loads(model)))
+        except Exception:
+            return "diff"
+        if got == impl:
+            return "ok"
+        if "stuck" in model and "int ** negative" in model:
+            return "trivial"
+        return "diff"
+
+    def nontrivial_key(self, pl, model, impl):
+        return json.dumps(pl, sort_keys=True)
+
+    def stats(self, pl, mo, io, acc):
+        k = pl["reading"] + " " + pl["op"]
+        acc[k] = acc.get(k, 0) + 1
+
+
+# ---------------------------------------------------------------------------------------------
+# The symbolic FFT: `fft` run on expression objects with a SYMBOLIC root of unity
+# ---------------------------------------------------------------------------------------------
+
+class _SymDtype:
+    kind = "c"
+
+    @staticmethod
+    def type(v):
+        return v
+
+
+class SymNp:
+    """Stand-in for numpy in `fft(..., custom_np=...)` on object arrays of expressions.  `exp` maps
+    the complex argument `sign*(-2j)*pi*k/m` back to the exact exponent `e = n*k/m (mod n)` of the
+    top-level root and returns the SYMBOL of that twiddle: the int `1` for `e = 0` (numpy's
+    `exp(0)` is exactly 1, which `x * 1 -> x` folds away), `Power(z, e)` otherwise."""
+    complex128 = _SymDtype
+
+    def __init__(self, n, sign, z="z"):
+        from pymbolic import var
+        self.n, self.sign, self.z = n, sign, var(z)
+
+    def dtype(self, d):
+        return _SymDtype
+
+    def arange(self, a, b, dtype=None):
+        import numpy as np
+        return np.arange(a, b, dtype=np.complex128)
+
+    def concatenate(self, parts, axis=0):
+        import numpy as np
+        return np.concatenate(parts, axis=axis)
+
+    def _one(self, c):
+        from pymbolic.primitives import Power
+        c = complex(c)
+        if abs(c.real) > 1e-9:
+            raise _BadTwiddle(f"exp argument has real part {c.real}")
+        val = c.imag / (-2 * math.pi) * self.sign
+        fr = Fraction(val).limit_denominator(1 << 16)
+        if abs(float(fr) - val) > 1e-9:
+            raise _BadTwiddle(f"exp argument/(-2j*pi) = {val} is not a small rational")
+        e = fr * self.n
+        if e.denominator != 1:
+            raise _BadTwiddle(f"exponent {fr} is not a multiple of 1/{self.n}")
+        if c == 0:
+            return 1
+        e = int(e) % self.n
+        if e == 0:
+            raise _BadTwiddle("a non-zero angle that is a multiple of 2*pi")
+        return Power(self.z, e)
+
+    def exp(self, arg):
+        import numpy as np
+        if isinstance(arg, np.ndarray):
+            out = np.empty(len(arg), dtype=object)
+            for i, c in enumerate(arg):
+                out[i] = self._one(c)
+            return out
+        return self._one(arg)
+
+
+def sym_wrap_intermediate(x):
+    """the nested `wrap_intermediate` of `sym_fft`, word for word (its shape is pinned by
+    `sym_fft_wrapper_current`)"""
+    import numpy
+    if len(x) > 1:
+        from pymbolic.primitives import CommonSubexpression
+        result = numpy.empty(len(x), dtype=object)
+        for i, x_i in enumerate(x):
+            result[i] = CommonSubexpression(x_i)
+        return result
+    else:
+        return x
+
+
+def _obj_array(xs):
+    import numpy as np
+    a = np.empty(len(xs), dtype=object)
+    for i, e in enumerate(xs):
+        a[i] = e
+    return a
+
+
+def sym_fft_symbolic(xs, sign):
+    """the REAL `fft`, called the way `sym_fft` calls it, with the symbolic-root stand-in"""
+    from pymbolic import algorithm as al
+    with warnings.catch_warnings():
+        warnings.simplefilter("ignore")
+        return list(al.fft(sym_wrap_intermediate(_obj_array(xs)), sign=sign,
+                           wrap_intermediate=sym_wrap_intermediate,
+                           complex_dtype=_SymDtype, custom_np=SymNp(len(xs), sign)))
+
+
+def _sym_inputs(spec):
+    """input expressions from a JSON spec: "v3" | 5 | ["+", a, b] | ["*", a, b]"""
+    from pymbolic import var
+    from pymbolic.primitives import Product, Sum
+
+    def one(t):
+        if isinstance(t, str):
+            return var(t)
+        if isinstance(t, int):
+            return t
+        a, b = one(t[1]), one(t[2])
+        return Sum((a, b)) if t[0] == "+" else Product((a, b))
+    return [one(t) for t in spec]
+
+
+class _ZpPow(Zp):
+    """Z_p element that also supports `** int` (the evaluator computes `z ** e`)"""
+    def __pow__(self, e):
+        return _ZpPow(pow(self.v, int(e), self.p), self.p)
+
+
+class SymFftTrees(Stream):
+    """the symbolic FFT: the trees the REAL `fft` builds on expression inputs (called as `sym_fft`
+    calls it: inputs and every block of sub-transforms wrapped in CommonSubexpression) with a
+    SYMBOLIC root of unity, vs the Lean model `symFft (symTw z)` — compared structurally, node for
+    node; and the trees of the real `sym_fft` itself (numpy twiddles, NearZeroKiller) with every
+    complex constant matched to the power of the root it approximates.  Oracle: the trees evaluate
+    EXACTLY, over Z_p with a root of order n for `z`, to the O(n^2) transform of the input values."""
+    name = "symfft-trees"
+
+    def cases(self, rng, tier):
+        big = tier != "quick"
+        top = 24 if big else 16
+        for n in range(1, top + 1):
+            for sign in (1, -1):
+                yield {"what": "fft", "n": n, "sign": sign, "x": [f"v{i}" for i in range(n)]}
+            yield {"what": "sym_fft", "n": n, "sign": 1, "x": [f"v{i}" for i in range(n)]}
+            if n % 2 == 0 or n < 8:
+                yield {"what": "sym_fft", "n": n, "sign": -1, "x": [f"v{i}" for i in range(n)]}
+        for n in ([25, 27, 30, 32, 36, 49, 64] if big else [rng.choice([25, 27, 30, 32])]):
+            yield {"what": "fft", "n": n, "sign": 1, "x": [f"v{i}" for i in range(n)]}
+            yield {"what": "sym_fft", "n": n, "sign": rng.choice([1, -1]),
+                   "x": [f"v{i}" for i in range(n)]}
+
+        def leaf():
+            return rng.choice([f"v{rng.randrange(4)}", rng.randint(-3, 3), f"v{rng.randrange(4)}"])
+
+        def item():
+            k = rng.randrange(6)
+            if k < 3:
+                return leaf()
+            return [rng.choice(["+", "*"]), leaf(), leaf()]
+        for _ in range(400 if big else 60):
+            n = rng.randint(1, 12)
+            yield {"what": "fft", "n": n, "sign": rng.choice([1, -1]), "x": [item() for _ in range(n)]}
+
+    def request(self, pl):
+        from ..sexp import dumps, expr_to_sx
+        xs = _sym_inputs(pl["x"])
+        return '(c19-symfft "z" ' + dumps([expr_to_sx(e) for e in xs]) + ")"
+
+    def _twiddle_symbol(self, c, n, sign):
+        """the power of the root a numeric constant of the real `sym_fft` approximates"""
+        from pymbolic.primitives import Power
+        from pymbolic import var
+        c = complex(c)
+        ang = cmath.phase(c) / (-2 * math.pi) * sign
+        e = round(ang * n) % n
+        if abs(c - cmath.exp(-2j * math.pi * sign * e / n)) > 1e-9 or e == 0:
+            raise _BadTwiddle(f"constant {c!r} is not a power of the root of order {n}")
+        return Power(var("z"), e)
+
+    def _trees(self, pl):
+        xs = _sym_inputs(pl["x"])
+        if pl["what"] == "fft":
+            return sym_fft_symbolic(xs, pl["sign"])
+        from pymbolic import algorithm as al
+        from pymbolic.mapper import IdentityMapper
+        n, sign, me = pl["n"], pl["sign"], self
+
+        class Symbolise(IdentityMapper):
+            def map_constant(self, expr):
+                if isinstance(expr, (complex, float)):
+                    return me._twiddle_symbol(expr, n, sign)
+                return expr
+
+            def map_common_subexpression(self, expr):
+                return type(expr)(self.rec(expr.child), expr.prefix, expr.scope)
+        with warnings.catch_warnings():
+            warnings.simplefilter("ignore")
+            res = al.sym_fft(_obj_array(xs), sign=sign)
+        return [Symbolise()(e) for e in res]
+
+    def run_impl(self, pl):
+        from ..sexp import dumps, expr_to_sx
+        try:
+            return dumps([expr_to_sx(e) for e in self._trees(pl)])
+        except _BadTwiddle as ex:
+            return f"(bad-twiddle {str(ex)[:80]!r})"
+        except (ArithmeticError, TypeError, AttributeError, IndexError) as ex:
+            return f"(raise {type(ex).__name__})"
+
+    def oracle(self, pl):
+        from pymbolic.mapper.evaluator import EvaluationMapper
+        n = pl["n"]
+        try:
+            trees = self._trees(pl)
+        except Exception as ex:     # noqa: BLE001
+            return Failure(f"symfft-{pl['what']}-raises", f"n={n}: {ex!r}", pl)
+        p = primes_for(n, 1)[0]
+        z = root_of_order(p, n) if n > 1 else 1
+        env = {f"v{i}": _ZpPow((7 * i * i + 3 * i + 2) % p, p) for i in range(max(n, 4))}
+        env["z"] = _ZpPow(z, p)
+        xs = _sym_inputs(pl["x"])
+
+        def val(e):
+            r = EvaluationMapper(env)(e) if not isinstance(e, int) else e
+            return r.v if isinstance(r, Zp) else int(r) % p
+        try:
+            inputs = [val(e) for e in xs]
+            got = [val(t) for t in trees]
+        except Exception as ex:     # noqa: BLE001
+            return Failure(f"symfft-{pl['what']}-evaluate-raises", f"n={n}: {ex!r}", pl)
+        zp = [pow(z, e, p) for e in range(max(n, 1))]
+        want = [sum(zp[(k * j) % n] * inputs[j] for j in range(n)) % p for k in range(n)]
+        if got != want:
+            bad = [k for k in range(len(want)) if k >= len(got) or got[k] != want[k]]
+            return Failure(f"symfft-{pl['what']}-vs-dft",
+                           f"n={n} sign={pl['sign']} p={p} z={z}: the trees evaluate to something "
+                           f"else than the transform at indices {bad[:6]}", pl)
+        return None
+
+    def shrink(self, pl):
+        if pl["n"] > 1 and all(isinstance(t, str) for t in pl["x"]):
+            for m in (pl["n"] - 1, pl["n"] // 2):
+                if m >= 1:
+                    yield dict(pl, n=m, x=[f"v{i}" for i in range(m)])
+
+    def nontrivial_key(self, pl, model, impl):
+        return json.dumps(pl, sort_keys=True)
+
+    def stats(self, pl, mo, io, acc):
+        acc[pl["what"]] = acc.get(pl["what"], 0) + 1
+        acc["lengths"] = sorted(set(acc.get("lengths", [])) | {pl["n"]})
+
+
 def probes():
     """Defects repaired by fix: commits — reported again if they ever return."""
     from pymbolic import evaluate, var
@@ -898,6 +1732,20 @@ def probes():
     except Exception:
         bad = True
     res.append(("sort-uniq-stale-exponent", bad, "_sort_uniq([(0,1),(1,2),(1,-2),(1,5)])"))
+    # known findings of the Rational / quotient model (C19Rational.lean), replayed on the real code
+    from pymbolic.primitives import quotient
+    try:
+        bad = evaluate(quotient(2 ** 1100, 2 ** 1099)) != 2
+    except Exception:
+        bad = True
+    res.append(("quotient-int-huge-overflows", bad,
+                "evaluate(quotient(2**1100, 2**1099)): the exact quotient of two integers is 2"))
+    try:
+        from pymbolic.rational import Rational
+        bad = evaluate(Rational(1, 2) + 1) != Fraction(3, 2)
+    except Exception:
+        bad = True
+    res.append(("rational-arithmetic-raises", bad, "Rational(1, 2) + 1"))
     try:
         bad = evaluate((Polynomial(x) + 1) ** 3, {"x": 2}) != 27
     except Exception:
@@ -927,20 +1775,29 @@ def extract(ctx=None):
 PROP = Prop(
     id="C19",
     title="Exact-arithmetic helpers and number types compute what they claim",
-    lean_targets=["PV.Properties.C19", "PV.Properties.C19Fft", "PV.Properties.C19Table"],
+    lean_targets=["PV.Properties.C19", "PV.Properties.C19Fft", "PV.Properties.C19Table",
+                  "PV.Properties.C19Rational", "PV.Properties.C19SymFft"],
     theorems=[],
     extractors=[extract],
-    streams=[Arith(), Polys(), FftExact(), TableRun(), Runtime()],
+    streams=[Arith(), Polys(), FftExact(), TableRun(), RationalPy2(), RationalPy3(), QuotientInts(),
+             TableRunRational(), SymFftTrees(), Runtime()],
     probes=[probes],
     trusted_base=["Lean 4.33 kernel; axioms propext, Classical.choice, Quot.sound only",
                   "harness/props/c19.py; CPython big integers",
                   "FFT arithmetic: proved for every commutative ring on the model and tied to the real fft/ifft EXACTLY over Z_p "
                   "through a custom_np stand-in (harness/props/c19.py: ExactNp, Zp) that maps exp(sign*-2j*pi*k/m) back to z**(n*k/m); "
                   "the floating-point complex exp of numpy itself and the symbolic FFT are runtime-checked against the O(n^2) DFT with a tolerance only",
+                  "Rational arithmetic: the source is read twice — as Python 3 runs it (floats; every method raises AttributeError: proved on the "
+                  "regenerated bodies, mirrored on the real code by rational-py3) and under the Python-2 reading of `/` as `//` it was written for "
+                  "(C19Table.py2; tied by rational-py2 / table-run-rational to a copy of the tree under test whose rational.py and traits.py have "
+                  "the same rewrite applied to their syntax trees: harness/c19_py2.py, harness/c19_py2_worker.py)",
+                  "symbolic FFT: the root of unity is a parameter (a symbol `Power(z, e)`); the real fft is run on expression objects through "
+                  "harness/props/c19.py: SymNp, which maps numpy's complex exponent back to the exponent e; over the exact values of the evaluation "
+                  "model (Q) a root of unity is +-1",
                   "extract/algorithm.py (ast reader of the function bodies under this property; unknown shapes are errors) and the meaning "
                   "PV/Model/AlgoTable.lean gives the statement language — both exercised by the table-run stream (compiled table interpreter on the "
                   "regenerated table vs the real functions)"],
-    level_text='Lean theorems (unbounded): integer_power = x^n in every monoid (negative n refused); extended Euclid satisfies Bezout and returns a gcd up to sign (sign rule proved), lcm consistent; find_factors factorises, FFT index splitting is a bijection; the whole fft recursion (Cooley-Tukey split by find_factors, sub-transforms with their own roots, twiddles, recombination, length-1 and prime base cases) computes the DFT sum_j z^(kj) x_j over EVERY commutative ring for every n >= 1 and every z with z^n = 1 (no primitivity needed), ifft inverts it exactly when n is invertible and z is a principal n-th root (necessary and sufficient; primitive roots in domains are principal), and the Z_p instance run by the driver equals the DFT mod p; sparse polynomial +,-,*,**,divmod are homomorphic to evaluation, _sort_uniq preserves value and sorts, Horner evaluation equals the sum of terms. Tied to the code by correspondence on big integers and random sparse polynomials, and for fft/ifft by EXACT comparison of the real functions run over Z_p (custom_np stand-in) with the model for all lengths 0..64 and longer ones; fft/ifft on complex floats and sym_fft are additionally compared with the O(n^2) DFT numerically (runtime part).',
+    level_text='Lean theorems (unbounded): integer_power = x^n in every monoid (negative n refused); extended Euclid satisfies Bezout and returns a gcd up to sign (sign rule proved), lcm consistent; find_factors factorises, FFT index splitting is a bijection; the whole fft recursion (Cooley-Tukey split by find_factors, sub-transforms with their own roots, twiddles, recombination, length-1 and prime base cases) computes the DFT sum_j z^(kj) x_j over EVERY commutative ring for every n >= 1 and every z with z^n = 1 (no primitivity needed), ifft inverts it exactly when n is invertible and z is a principal n-th root (necessary and sufficient; primitive roots in domains are principal), and the Z_p instance run by the driver equals the DFT mod p; sparse polynomial +,-,*,**,divmod are homomorphic to evaluation, _sort_uniq preserves value and sorts, Horner evaluation equals the sum of terms. Tied to the code by correspondence on big integers and random sparse polynomials, and for fft/ifft by EXACT comparison of the real functions run over Z_p (custom_np stand-in) with the model for all lengths 0..64 and longer ones; fft/ifft on complex floats and sym_fft are additionally compared with the O(n^2) DFT numerically (runtime part). Rational: under the Python-2 reading of `/` the regenerated __add__/__sub__/__mul__/__div__ (and reflected), __neg__, reciprocal, __init__, quotient ARE ratAdd/... for all integer fields, and for non-zero denominators value(a op b) = value(a) op value(b) in Q, every division exact, sums reduced with positive denominator (__pow__ exchanges numerator and denominator: rational_pow_inverted_cex); as Python 3 runs the same bodies every arithmetic method of a constructor-built Rational raises AttributeError (rational_*_py3_raises); quotient(a, b) and the Quotient(a, b) node evaluate to a/b. Symbolic FFT: the regenerated fft with any wrapper is c19FftW (fft_wrap_eq_table_current), run on expression objects it returns symFft (sym_fft_eq_table_current), and for every environment with exact values the k-th tree evaluates (den) to sum_j zeta^(kj) value(x_j) (sym_fft_den, through the C03 soundness of the overloaded operators).',
     level_note='T-gen: the bodies of integer_power, extended_euclidean, gcd, lcm, find_factors, fft, ifft, _sort_uniq, the Polynomial methods, traits, Rational.__init__ and the two map_polynomial handlers are re-read from the source on every run into a small imperative language; the hand-written loop functions (integerPowerLoop, extEuclid, findFactors, sortUniq, add, mulRaw/mul, pow, divmodLoop, hornerLoopPy, c19FftStep/c19FftAux) are proved equal to the interpreter of the regenerated bodies for all inputs (PV/Properties/C19Table.lean), so a behaviour-changing source edit breaks an obligation and the streams give the failing input. Trusted: Lean kernel; harness; CPython big integers. Floating-point rounding of the complex FFT (numpy exp/multiply) and the symbolic FFT, polynomial division over fields and mixed bases are not modelled; matrices and mapper traversal of polynomials are checked by oracles on the real code only.',
     technique='Lean 4 proofs about loop-faithful models (well-founded recursion, Mathlib Monoid/Int lemmas) + differential correspondence + numeric DFT oracle',
     design_ref="DESIGN.md §4 C19",
